@@ -46,6 +46,27 @@ theorem unslice_getD (q : List UInt64) (blk j : Nat) (hj : j < 16) : (unslice q 
 
 theorem unslice_length (q : List UInt64) (blk : Nat) : (unslice q blk).length = 16 := by simp [unslice]
 
+/-! ### ortho (bit transposition of the 8 words, byte by byte) -/
+def orthoTab : Bool := (List.range 8).all fun b => (List.range 64).all fun p =>
+  symRun SqiGen.Aes.ortho_prog sinit b p == some (affOfVars [(p % 8, 8 * (p / 8) + b)])
+theorem orthoTab_ok : orthoTab = true := by decide +kernel
+theorem ortho_ok : Prog.ok SqiGen.Aes.ortho_nreg SqiGen.Aes.ortho_prog = true := by decide +kernel
+
+theorem orthoQ_bit (q : List UInt64) (hq : q.length = 8) (b p : Nat) (hb : b < 8) (hp : p < 64) :
+    bitsOf (orthoQ q) b p = bitsOf q (p % 8) (8 * (p / 8) + b) := by
+  have htab := orthoTab_ok
+  unfold orthoTab at htab
+  simp only [List.all_eq_true, List.mem_range, beq_iff_eq] at htab
+  unfold orthoQ
+  rw [bitsOf_take _ _ _ _ hb,
+    prim_bit _ _ ortho_ok q (by rw [hq]; decide) b p _ (by have : SqiGen.Aes.ortho_nreg = 32 := rfl; omega) hp (by
+        intro v hv
+        simp only [List.mem_singleton] at hv
+        subst hv
+        exact ⟨by rw [hq]; omega, by omega⟩)
+      (htab b hb p hp)]
+  simp
+
 /-! ### ShiftRows -/
 def srcSR (i : Nat) : Nat := i % 4 + 4 * ((i / 4 + i % 4) % 4)
 
